@@ -523,12 +523,24 @@ func runInit(s InitScript) (res vt.Result) {
 
 func runInitInBubble(s InitScript) (res vt.Result) {
 	rcv := &recorder{}
+	var userSpans []*rec // runs of the server's InitializedHandler (guarded by rcv.mu)
 	server := mcp.NewServer(&mcp.Implementation{Name: "srv", Version: "1"}, &mcp.ServerOptions{
 		ProgressNotificationHandler: func(context.Context, *mcp.ProgressNotificationServerRequest) {},
 		InitializedHandler: func(context.Context, *mcp.InitializedRequest) {
+			// the user's own handler is recorded by itself: it is "the handler of the notification", wherever
+			// the SDK chooses to run it
+			rcv.mu.Lock()
+			rcv.clock++
+			u := &rec{method: "(InitializedHandler)", start: rcv.clock, startT: time.Now()}
+			userSpans = append(userSpans, u)
+			rcv.mu.Unlock()
 			if s.InitdDurMs > 0 {
 				time.Sleep(time.Duration(s.InitdDurMs) * time.Millisecond)
 			}
+			rcv.mu.Lock()
+			rcv.clock++
+			u.end, u.endT, u.ended = rcv.clock, time.Now(), true
+			rcv.mu.Unlock()
 		},
 	})
 	mcp.AddTool(server, &mcp.Tool{Name: "t"}, func(ctx context.Context, req *mcp.CallToolRequest, in toolIn) (*mcp.CallToolResult, any, error) {
@@ -633,6 +645,27 @@ func runInitInBubble(s InitScript) (res vt.Result) {
 			if !e.ended || later.start < e.end {
 				res.Failf("handler of follower %d (%s) started (t=%v) before the handler of the earlier follower %d (%s) had finished (t=%v)", j, later.method, later.startT.Format("05.000"), i, e.method, e.endT.Format("05.000"))
 				break
+			}
+		}
+	}
+	// The application's InitializedHandler is the handler of notifications/initialized: whatever was dispatched
+	// after that notification starts only once it has returned.
+	if len(userSpans) > 0 {
+		u := userSpans[0]
+		if s.InitdDurMs > 0 {
+			res.Class("slow_initialized_handler")
+		}
+		// the first notifications/initialized of the script is the one that runs it (k-th record = k-th message, as above)
+		if idx := slices.Index(s.Followers, "notifications/initialized"); idx >= 0 {
+			for j := idx + 1; j < len(s.Followers); j++ {
+				later := recOf(j)
+				if later == nil || later.method == "notifications/initialized" {
+					continue
+				}
+				if !u.ended || later.start < u.end {
+					res.Failf("handler of follower %d (%s) started (clock %d, t=%v) although it was sent after notifications/initialized and the server's InitializedHandler had not finished yet (finished: %v, clock %d, t=%v)", j, later.method, later.start, later.startT.Format("05.000"), u.ended, u.end, u.endT.Format("05.000"))
+					break
+				}
 			}
 		}
 	}
